@@ -17,6 +17,8 @@ package soyjs
 //@   noterm
 //@   preserves F!github.com/robfig/soy/ast.* F!github.com/robfig/soy/template.* E!Iface E!Str E!Int:uint8 E!Int:*github.com/robfig/soy/ast.*
 //@   at call template.JSEscape#0 assert[string-literal-escaped-whole;C14] len(arg1) == len(unbox(node, *ast.StringNode).Value) && forall(i, 0, len(arg1), arg1[i] == unbox(node, *ast.StringNode).Value[i])
+//@   at call (*state).js#16 assert[a-space-separates-the-minus-from-its-operand;C14] typeis(arg1[0], string) && len(unbox(arg1[0], string)) == 3 && unbox(arg1[0], string)[1] == 45 && unbox(arg1[0], string)[2] == 32
+//@   at call (*FloatNode).String#0 assert[only-finite-numbers-and-NaN-are-written-as-digits;C14] !isInf(unbox(node, *ast.FloatNode).Value)
 //@   at call template.JSEscape#1 assert[map-key-escaped-whole;C14] len(arg1) == len(k) && forall(i, 0, len(arg1), arg1[i] == k[i])
 //@   nosafety
 //@   modifies *
@@ -39,7 +41,7 @@ package soyjs
 // can only reach the output through template.JSEscape.
 //@ specfn jsok(s string) bool
 //@ taint jsok const
-//@ taint jsok field ast.DataRefNode.Key ast.DataRefKeyNode.Key ast.LetValueNode.Name ast.LetContentNode.Name ast.ForNode.Var ast.CallParamValueNode.Key ast.CallParamContentNode.Key ast.NamespaceNode.Name ast.SoyFileNode.Name soyjs.PrintDirective.Name soyjs.state.bufferName
+//@ taint jsok field ast.DataRefNode.Key ast.DataRefKeyNode.Key ast.LetValueNode.Name ast.LetContentNode.Name ast.ForNode.Var ast.CallParamValueNode.Key ast.CallParamContentNode.Key ast.NamespaceNode.Name soyjs.PrintDirective.Name soyjs.state.bufferName
 
 //@ functype jsEmitter
 //@   params s
@@ -67,6 +69,20 @@ package soyjs
 //@ func (*state).op
 //@   like jsEmitter
 //@   requires jsok(symbol)
+// The file name is not an identifier (any path is possible): it reaches the
+// header comment only through commentText, whose mapping function is proved to
+// leave no character that ends a one-line comment. That strings.Map applies
+// the function to every character is trusted.
+//@ func commentText
+//@   props C14
+//@   nosafety
+//@   pure
+//@   trustedensures[a-one-line-comment-can-hold-it;C14] jsok(result)
+//@ func commentText$1
+//@   props C14
+//@   pure
+//@   ensures[no-character-that-ends-a-line-comment-survives;C14] result != 10 && result != 13 && result != 8232 && result != 8233 && result >= 32
+//@   ensures[every-other-character-is-kept;C14] r >= 32 && r != 8232 && r != 8233 ==> result == r
 //@ func (*state).visitSoyFile
 //@   like jsEmitter
 //@ func (*state).visitNamespace
